@@ -246,6 +246,8 @@ ExecWhy(f, e, isAbort) == LET n == e.n IN
   ELSE IF ~CanExec(f) THEN "exec-not-expected-in-state-" \o f.st
   ELSE IF StepLimitHit(f) THEN "exec-beyond-step-limit"
   ELSE IF n \notin DOMAIN f.pending THEN (IF IsDag(f.g) /\ n \in GNodes(f.g) /\ f.status[n] # "unk" THEN "node-executed-twice" ELSE "exec-of-node-not-triggered")
+  \* (all-predecessor mode: n can only be submitted after c was collected, and the run loop looks at the context before it submits)
+  ELSE IF IsDag(f.g) /\ \E c \in CtrlPreds(f.g, n) \cap GNodes(f.g) : FailKind(f.g, c) = "cancel" /\ f.status[c] = "done" THEN "node-started-after-cancellation"
   ELSE IF Poisoned(f, n) THEN "stream-error-item-swallowed"
   ELSE IF PreIn(f.g, f.pending[n]) # e.i THEN "wrong-input"
   ELSE IF \E d \in (IF IsDag(f.g) THEN f.postDue ELSE f.postBlock) : n \in Succs(f.g, d) THEN "successor-started-before-post-handler"
